@@ -58,7 +58,19 @@ def _with_broken(position: int) -> dict:
     return doc
 
 
-BROKEN_DOCS = {"unit2_broken_first": _with_broken(0), "unit2_broken_mid": _with_broken(1), "unit2_broken_last": _with_broken(2)}
+def _with_header_examples(values: list[str]) -> dict:
+    """An explicit example that cannot be sent (line break in a header value) before / between / after sendable ones: the
+    unsendable one is dropped while the test is built and has to be reported (InvalidHeadersExample)."""
+    doc = copy.deepcopy(DOC_UNIT2)
+    doc["paths"]["/a"]["get"]["parameters"].append(
+        {"name": "X-E", "in": "header", "schema": {"type": "string"}, "examples": {f"e{i}": {"value": v} for i, v in enumerate(values)}})
+    return doc
+
+
+_BAD = "a\nb"
+BROKEN_DOCS = {"unit2_broken_first": _with_broken(0), "unit2_broken_mid": _with_broken(1), "unit2_broken_last": _with_broken(2),
+               "hdr_example_bad_first": _with_header_examples([_BAD, "ok"]), "hdr_example_bad_mid": _with_header_examples(["ok", _BAD, "fine"]),
+               "hdr_example_bad_last": _with_header_examples(["ok", _BAD]), "hdr_example_bad_only": _with_header_examples([_BAD])}
 DOCS = {"unit3": DOC_UNIT3, "unit2": DOC_UNIT2, "link": DOC_LINK, **BROKEN_DOCS}
 
 
